@@ -29,6 +29,22 @@ pub const SNAP_UPREG: u32 = 102;
 /// (local bytecode_len, call_site_cache.len())
 pub const SNAP_BC: u32 = 103;
 
+/// (1 when the instruction about to be fetched starts on the linear instruction grid of its
+/// buffer -- the grid the verifier walks: 3 words for opcodes 77/78/104, 1 otherwise -- else 0,
+/// address of the buffer: identifies the function inside one run only)
+pub const SNAP_GRID: u32 = 104;
+
+/// Is `target` reached by the verifier's linear walk over `len` words at `ptr`?
+pub fn on_grid(ptr: *const u32, len: usize, target: usize) -> bool {
+    let mut i = 0usize;
+    while i < target && i < len {
+        // SAFETY: i < len, the true length of the buffer
+        let op = unsafe { *ptr.add(i) } >> 24;
+        i += if op == 77 || op == 78 || op == 104 { 3 } else { 1 };
+    }
+    i == target
+}
+
 pub fn enable(on: bool) {
     ENABLED.store(on, Ordering::Relaxed);
 }
